@@ -303,6 +303,8 @@ def blind(text, lang):
     interpolated verbatim strings"""
     if text.lstrip(" \t").startswith("\\"):
         return True
+    if text.rstrip(" \t\r\n").endswith("\\"):     # the last line break is a line splice, not a line end: nl_end_of_file has nothing to act on
+        return True
     if lang == "CS" and ('$@"' in text or '@$"' in text):
         return True
     import re as _re
